@@ -22,6 +22,7 @@ import mongomock
 from mongomock import command_cursor
 from mongomock import filtering
 from mongomock import helpers
+from mongomock.not_implemented import raise_for_feature as raise_not_implemented
 from mongomock import OperationFailure
 
 try:
@@ -1802,7 +1803,7 @@ _PIPELINE_HANDLERS = {
 
 def process_pipeline(collection, database, pipeline, session):
     if session:
-        raise NotImplementedError('Mongomock does not handle sessions yet')
+        raise_not_implemented('session', 'Mongomock does not handle sessions yet')
 
     for stage in pipeline:
         if len(stage) != 1:
